@@ -451,7 +451,7 @@ func (w *flWorld) key() string {
 	sort.Strings(as)
 	in := append([]extent{}, w.inuse...)
 	sort.Slice(in, func(i, j int) bool { return in[i].start < in[j].start })
-	fmt.Fprintf(&sb, "A%v|R%v|L%d|W%d|H%d|I%v|wr%v", as, w.readers, w.last, w.writer, w.hwm, in, w.written != nil)
+	fmt.Fprintf(&sb, "A%v|R%v|L%d|W%d|H%d|I%v|wr%v|raw%s", as, w.readers, w.last, w.writer, w.hwm, in, w.written != nil, d.Raw)
 	if w.written != nil {
 		p := (*common.Page)(unsafe.Pointer(&w.written[0]))
 		fmt.Fprintf(&sb, "%v", p.FreelistPageIds())
@@ -513,8 +513,9 @@ type c09Job struct {
 	MaxHwm  int    `json:"max_hwm"`
 	Depth   int    `json:"depth"`
 	Readers int    `json:"readers"`
-	Path    []fop  `json:"path,omitempty"` // replay
-	Big     bool   `json:"big,omitempty"`  // the 0xFFFF directed enumeration instead
+	Prefix  []fop  `json:"prefix,omitempty"` // non-initial start state: operations applied (and checked) before the search
+	Path    []fop  `json:"path,omitempty"`   // replay
+	Big     bool   `json:"big,omitempty"`    // the 0xFFFF directed enumeration instead
 }
 
 type c09Res struct {
@@ -532,12 +533,40 @@ func c09Replay(job c09Job, path []fop) (*flWorld, string) {
 	if msg != "" {
 		return w, msg
 	}
+	for _, o := range job.Prefix {
+		if o.K == "free" {
+			ok := false
+			for _, e := range w.inuse {
+				ok = ok || e.start == o.A
+			}
+			if !ok {
+				return w, "" // prefix not applicable to this start set
+			}
+		}
+		if m, _ := w.apply(o); m != "" {
+			return w, "start prefix: " + m
+		}
+	}
 	for _, o := range path {
 		if m, _ := w.apply(o); m != "" {
 			return w, m
 		}
 	}
 	return w, ""
+}
+
+func prefixNote(p []fop) string {
+	if len(p) == 0 {
+		return ""
+	}
+	return "[start state: " + pathString(p) + "] "
+}
+
+func btoi(b bool) int {
+	if b {
+		return 1
+	}
+	return 0
 }
 
 func pathString(p []fop) string {
@@ -560,7 +589,7 @@ func c09Work(job c09Job) c09Res {
 	}
 	seen := map[string]bool{}
 	frontier := [][]fop{nil}
-	w0, msg := newWorld(job.Backend, job.Init, job.Hwm, job.MaxHwm)
+	w0, msg := c09Replay(job, nil)
 	if msg != "" {
 		res.Fail = msg
 		return res
@@ -722,17 +751,32 @@ func init() {
 func C09(tier string) int {
 	start := time.Now()
 	LoadFindings()
-	depth := 8
+	depth := 7
 	inits := [][]int{{}, {3, 4, 5}, {2, 3, 5, 6, 9}, {4, 5, 6, 7}, {3, 5, 7}}
 	hwm, maxHwm := 10, 12
 	if tier == "thorough" {
 		depth = 10
 		inits = append(inits, []int{2, 3, 4, 5, 6, 7, 8, 9}, []int{8, 9}, []int{2, 4, 5, 8, 9})
 	}
+	// start states other than the initial one (each reached through checked operations): two readers of different
+	// ages with pages allocated after each of them; pending pages of two transactions pinned by two readers
+	prefixes := [][]fop{nil,
+		{{K: "addR"}, {K: "beginW"}, {K: "alloc", A: 1}, {K: "commit"}, {K: "addR"}, {K: "beginW"}, {K: "alloc", A: 1}, {K: "commit"}},
+		{{K: "addR"}, {K: "beginW"}, {K: "free", A: 6}, {K: "commit"}, {K: "addR"}, {K: "beginW"}, {K: "free", A: 7}, {K: "alloc", A: 1}, {K: "commit"}},
+	}
 	var meta []c09Job
 	for _, b := range []string{"array", "hashmap"} {
 		for _, in := range inits {
-			meta = append(meta, c09Job{Backend: b, Init: in, Hwm: hwm, MaxHwm: maxHwm, Depth: depth, Readers: 2})
+			for pi, pf := range prefixes {
+				d := depth
+				if pi > 0 {
+					d = depth - 2 // from the non-initial states (which are already 8-9 operations deep)
+					if tier != "thorough" && len(in) != 3 {
+						continue // quick: two start sets for the non-initial states
+					}
+				}
+				meta = append(meta, c09Job{Backend: b, Init: in, Hwm: hwm, MaxHwm: maxHwm + 2*btoi(pi > 0), Depth: d, Readers: 3, Prefix: pf})
+			}
 		}
 		meta = append(meta, c09Job{Backend: b, Big: true})
 	}
@@ -771,7 +815,7 @@ func C09(tier string) int {
 			p := evid.Replay("C09", map[string]interface{}{"property": "C09", "engine": "c09", "job": j, "path_text": pathString(res.FailPath), "msg": res.Fail})
 			viols = append(viols, p)
 			evid.Violation("C09", p)
-			fmt.Printf("  %s backend, initially free %v: %s\n  operations: %s\n", j.Backend, j.Init, res.Fail, pathString(res.FailPath))
+			fmt.Printf("  %s backend, initially free %v: %s\n  operations: %s%s\n", j.Backend, j.Init, res.Fail, prefixNote(j.Prefix), pathString(res.FailPath))
 		}
 	})
 	if len(samples) == 0 {
@@ -779,7 +823,7 @@ func C09(tier string) int {
 	}
 	cov := map[string]interface{}{
 		"states": states, "transitions": trans, "traces_validated_against_impl": trans, "evaluations": trans, "distinct_nontrivial": states,
-		"rule":    fmt.Sprintf("breadth-first search over every sequence of at most %d allocator operations as the database can issue them (Init with each start set over page ids 2..%d, writer begin = ReleasePendingPages, Allocate(1..3), Free of every in-use extent incl. a two-page one, commit = Write, Rollback followed by Reload from the last written page or by NoSyncReload from a rescan, AddReadonlyTXID / RemoveReadonlyTXID with up to 2 readers, Write + Read into both backends), both backends; on the hash-map backend every map iteration order inside Allocate is a choice and all are enumerated; every operation is executed on the real allocator and judged by the specification relation (not lowest-id-first); plus the directed enumeration of list lengths 0,1,2,65533..65537 for the 0xFFFF convention; a state is a distinct (model, allocator dump) key", depth, maxHwm-1),
+		"rule":    fmt.Sprintf("breadth-first search over every sequence of at most %d allocator operations as the database can issue them (Init with each start set over page ids 2..%d, writer begin = ReleasePendingPages, Allocate(1..3), Free of every in-use extent incl. a two-page one, commit = Write, Rollback followed by Reload from the last written page or by NoSyncReload from a rescan, AddReadonlyTXID / RemoveReadonlyTXID with up to 3 readers, Write + Read into both backends), both backends; on the hash-map backend every map iteration order inside Allocate is a choice and all are enumerated; every operation is executed on the real allocator and judged by the specification relation (not lowest-id-first); plus the directed enumeration of list lengths 0,1,2,65533..65537 for the 0xFFFF convention; the search starts from the initial state and from two non-initial states reached by fixed, checked prefixes (readers of different ages with later allocations / pinned pending pages); a state is a distinct (model, allocator dump incl. internal order) key", depth, maxHwm-1),
 		"samples": samples, "exhaustive": len(errs) == 0, "harness_errors": errs, "max_depth": maxDepth, "map_order_alternatives_run": orders,
 	}
 	ev := &evid.Evidence{PropertyID: "C09", Tier: tier, Level: "model_checking", Coverage: cov, Violations: len(viols),
